@@ -346,6 +346,10 @@ impl EnumSpec {
         for g in &self.generics {
             match g {
                 Generic::Lifetime { .. } => lts.push("'static".to_string()),
+                // a parameter named `P` is instantiated with a type that implements neither Default nor Display
+                Generic::Type { name, .. } if name == "P" => rest.push("vf_core::Nd".to_string()),
+                // a parameter named `S` is instantiated with a string slice
+                Generic::Type { name, .. } if name == "S" => rest.push("&'static str".to_string()),
                 Generic::Type { .. } => rest.push(tyarg.to_string()),
                 Generic::Const { .. } => rest.push("3".to_string()),
             }
@@ -654,7 +658,10 @@ pub fn render_ctor(spec: &EnumSpec, vi: usize, fields: &[String]) -> String {
         inner
     } else {
         // a value of a generic enum gets its type arguments spelled out (a unit variant alone cannot be inferred)
-        format!("vf_core::id::<{}{}>({})", spec.name, spec.generics_inst(), inner)
+        // lifetimes are left to inference (a payload may borrow a temporary)
+        let inst = spec.generics_inst();
+        let inst = if spec.has_lifetime() { inst.replacen("<'static", "<'_", 1) } else { inst };
+        format!("vf_core::id::<{}{}>({})", spec.name, inst, inner)
     }
 }
 
@@ -706,6 +713,7 @@ impl FieldTy {
             FieldTy::Arr2 => "[0, 0]".into(),
             FieldTy::Nd => "vf_core::Nd(0)".into(),
             FieldTy::Raw(t, _) if t.contains("PhantomData") => "::core::marker::PhantomData".into(),
+            FieldTy::Raw(t, _) if t.starts_with("Option<") => "None".into(),
             FieldTy::Raw(_, _) => "Default::default()".into(),
         }
     }
